@@ -3,7 +3,7 @@ NAME = 'net'
 TUS = [('src/common/net.cc', 'Pistache')]
 PRELUDE = r'''
 #include "vs_netstr.h"
-int vs_exc; bool g_hit_end; size_t g_w; long g_strtol_ret; char g_strtol_endc;
+int vs_exc; bool g_hit_end; size_t g_w; char g_strtol_endc; bool g_num_neg, g_num_ovf; unsigned long g_num_mag;
 /* ghost: what AddressParser made of the text (set at every exit of its constructor) */
 size_t g_fact_idx[4]; char g_fact_ch[4]; unsigned g_fact_n; size_t g_nofact_from[2]; char g_nofact_ch[2]; unsigned g_nofact_n;
 size_t g_ap_portlen; bool g_ap_colon, g_ap_ok; int g_ap_family;
@@ -21,11 +21,11 @@ STUBS = {
     'min': {'expr': '((uint16_t)0)'}, 'max': {'expr': '((uint16_t)65535)'},
     'operator=|std::string,std::string': 'vs_nstr_assign',
     'ctor:std::string/0': {'expr': 'vs_nstr_ctor_empty()'},
-    'strtol': 'vs_strtol',
+    'strtol': 'vs_strtol', 'strtoul': 'vs_strtoul', 'strtoull': 'vs_strtoul', 'strtoll': 'vs_strtol',
     'var:npos': 'VS_NPOS',
 }
 THROWING = ['vs_nstr_substr', 'vs_nstr_substr1']
-ALWAYS_REPLACE = ['vs_strtol']
+ALWAYS_REPLACE = ['vs_strtol', 'vs_strtoul']
 RECORDS = ['Pistache::Port', 'Pistache::AddressParser', 'Pistache::Address']
 OPAQUE = ['Pistache::IP']
 ASSUME_PISTACHE = ['Pistache::GetIPv6', 'Pistache::GetIPv4', 'Pistache::HostToIPv4', 'Pistache::IP::']
@@ -36,13 +36,14 @@ FUNCTIONS = [
     {'q': 'Pistache::Port::min'},
     {'q': 'Pistache::Port::max'},
     {'q': 'Pistache::Port::Port', 'sig': 'const std::string &', 'c': 'Pistache_Port_ctor_str',
-     'ghost': [('vs_strtol', 'before', 'g_w = data->size;')], 'contract': """
+     'contract': """
         requires FRESH(this, sizeof(*this)) && NSTR_PRE(data) && vs_exc == 0
-        assigns this->port, vs_exc, g_w, g_strtol_ret, g_strtol_endc
+        assigns this->port, vs_exc, g_w, g_strtol_endc, g_num_neg, g_num_ovf, g_num_mag
         ensures vs_exc == 0 || vs_exc == VS_EXC_INVALID_ARGUMENT
-        # accepted exactly when the text is non-empty, strtol consumed all of it and the value is a port number; value preserved
-        ensures (vs_exc == 0) == (data->size > 0 && g_strtol_endc == 0 && 0 <= g_strtol_ret && g_strtol_ret <= 65535)
-        ensures vs_exc == 0 ==> this->port == g_strtol_ret"""},
+        # C19: accepted exactly when the text is non-empty, is a numeral to its end, and the number it denotes is a port number (0..65535)
+        # -- whatever library function does the conversion; the value is preserved
+        ensures (vs_exc == 0) == (data->size > 0 && g_strtol_endc == 0 && VS_TEXT_IS_PORT)
+        ensures vs_exc == 0 ==> this->port == g_num_mag"""},
     {'q': 'Pistache::AddressParser::AddressParser',
      'exit_ghost': 'g_ap_portlen = this->port_.size; g_ap_colon = this->hasColon_; g_ap_ok = (vs_exc == 0); g_ap_family = this->family_;',
      'contract': """
@@ -72,16 +73,16 @@ FUNCTIONS = [
     {'q': 'Pistache::AddressParser::rawHost'}, {'q': 'Pistache::AddressParser::rawPort'}, {'q': 'Pistache::AddressParser::hasColon'},
     {'q': 'Pistache::AddressParser::family'},
     {'q': 'Pistache::Port::Port', 'sig': 'void (uint16_t)', 'c': 'Pistache_Port_ctor_u16'},
-    {'q': 'Pistache::Address::init', 'dead_ok': ['throw std::invalid_argument("Invalid port");'], 'ghost': [('vs_strtol', 'before', 'g_w = portPart->size;')], 'contract': """
+    {'q': 'Pistache::Address::init', 'dead_ok': ['throw std::invalid_argument("Invalid port");'], 'contract': """
         requires FRESH(this, sizeof(*this)) && NSTR_PRE(addr) && addr->off == 0 && vs_exc == 0 && g_fact_n == 0 && g_nofact_n == 0
-        assigns this->port_, this->ip_, vs_exc, g_w, g_strtol_ret, g_strtol_endc, g_ap_portlen, g_ap_colon, g_ap_ok, g_ap_family, g_fact_n, __CPROVER_object_whole(g_fact_idx), __CPROVER_object_whole(g_fact_ch), g_nofact_n, __CPROVER_object_whole(g_nofact_from), __CPROVER_object_whole(g_nofact_ch)
+        assigns this->port_, this->ip_, vs_exc, g_w, g_strtol_endc, g_num_neg, g_num_ovf, g_num_mag, g_ap_portlen, g_ap_colon, g_ap_ok, g_ap_family, g_fact_n, __CPROVER_object_whole(g_fact_idx), __CPROVER_object_whole(g_fact_ch), g_nofact_n, __CPROVER_object_whole(g_nofact_from), __CPROVER_object_whole(g_nofact_ch)
         # never an out-of-range substr, whatever the text
         ensures vs_exc == 0 || vs_exc == VS_EXC_INVALID_ARGUMENT || vs_exc == VS_EXC_OTHER_STD
         ensures !g_ap_ok ==> vs_exc == VS_EXC_INVALID_ARGUMENT
         # port absent: 80; port given: accepted exactly when strtol consumed all of it and the value is a port number
         ensures (vs_exc == 0 && g_ap_portlen == 0) ==> this->port_.port == 80
-        ensures (vs_exc == 0 && g_ap_portlen > 0) ==> (g_strtol_endc == 0 && 0 <= g_strtol_ret && g_strtol_ret <= 65535 && this->port_.port == g_strtol_ret)
-        ensures (g_ap_ok && g_ap_portlen > 0 && vs_exc == VS_EXC_INVALID_ARGUMENT) ==> !(g_strtol_endc == 0 && 0 <= g_strtol_ret && g_strtol_ret <= 65535)"""},
+        ensures (vs_exc == 0 && g_ap_portlen > 0) ==> (g_strtol_endc == 0 && VS_TEXT_IS_PORT && this->port_.port == g_num_mag)
+        ensures (g_ap_ok && g_ap_portlen > 0 && vs_exc == VS_EXC_INVALID_ARGUMENT) ==> !(g_strtol_endc == 0 && VS_TEXT_IS_PORT)"""},
 ]
 PROOFS = [
     {'name': 'Port_from_string', 'enforce': 'Pistache_Port_ctor_str', 'props': ['C19', 'C03']},
